@@ -1,0 +1,526 @@
+//! C10 adapter, listener part: the real `SocketListener::new::<TcpAddress>` (bind, interface
+//! expansion of unspecified addresses, DNS rejection, `DialAddresses`), `SocketListener::poll_next`
+//! and `AddressType::lookup_ip` (against a scripted name server on loopback) behind the line
+//! protocol. Child module of `transport::common::listener`.
+//!
+//! Ports chosen by the operating system are written `@k` (k-th distinct port bound in this case);
+//! the same token in an operation stands for that port.
+
+use super::{AddressType, DialAddresses, DnsType, GetSocketAddr, SocketListener, TcpAddress};
+use crate::{
+    error::{AddressError, DnsError},
+    verif::{kv, peer, peer_index},
+};
+
+use futures::StreamExt;
+use hickory_resolver::{
+    config::{LookupIpStrategy, NameServerConfig, ResolverConfig, ResolverOpts},
+    net::runtime::TokioRuntimeProvider,
+    TokioResolver,
+};
+use multiaddr::{Multiaddr, Protocol};
+use network_interface::{Addr, NetworkInterface, NetworkInterfaceConfig};
+
+use std::{
+    collections::HashMap,
+    net::{IpAddr, Ipv4Addr, Ipv6Addr, SocketAddr, UdpSocket},
+    sync::{
+        atomic::{AtomicBool, Ordering},
+        Arc, Mutex,
+    },
+    time::Duration,
+};
+
+/// What the scripted name server knows about one name.
+#[derive(Clone, Default)]
+struct Zone {
+    a: Vec<Ipv4Addr>,
+    aaaa: Vec<Ipv6Addr>,
+    fail: bool,
+}
+
+type Script = Arc<Mutex<HashMap<String, Zone>>>;
+
+/// Scripted authoritative name server on a loopback UDP socket.
+struct NameServer {
+    port: u16,
+    script: Script,
+    stop: Arc<AtomicBool>,
+}
+
+impl NameServer {
+    fn start() -> Option<Self> {
+        let socket = UdpSocket::bind((Ipv4Addr::LOCALHOST, 0)).ok()?;
+        socket.set_read_timeout(Some(Duration::from_millis(50))).ok()?;
+        let port = socket.local_addr().ok()?.port();
+        let script: Script = Default::default();
+        let stop = Arc::new(AtomicBool::new(false));
+        let (script2, stop2) = (script.clone(), stop.clone());
+        std::thread::spawn(move || {
+            let mut buffer = [0u8; 1500];
+            while !stop2.load(Ordering::Relaxed) {
+                let Ok((n, from)) = socket.recv_from(&mut buffer) else { continue };
+                if let Some(reply) = answer(&buffer[..n], &script2) {
+                    let _ = socket.send_to(&reply, from);
+                }
+            }
+        });
+        Some(Self { port, script, stop })
+    }
+}
+
+impl Drop for NameServer {
+    fn drop(&mut self) {
+        self.stop.store(true, Ordering::Relaxed);
+    }
+}
+
+/// Build the reply to one DNS query (single question, classes/types A and AAAA).
+fn answer(query: &[u8], script: &Script) -> Option<Vec<u8>> {
+    if query.len() < 12 {
+        return None;
+    }
+    let mut i = 12;
+    let mut labels: Vec<String> = Vec::new();
+    loop {
+        let len = *query.get(i)? as usize;
+        i += 1;
+        if len == 0 {
+            break;
+        }
+        if len & 0xc0 != 0 {
+            return None;
+        }
+        labels.push(String::from_utf8_lossy(query.get(i..i + len)?).to_ascii_lowercase());
+        i += len;
+    }
+    let qtype = u16::from_be_bytes([*query.get(i)?, *query.get(i + 1)?]);
+    i += 4;
+    let question = query.get(12..i)?;
+    let name = labels.join(".");
+    let zone = script.lock().expect("lock").get(&name).cloned();
+    let (rcode, records): (u8, Vec<Vec<u8>>) = match zone {
+        None => (3, vec![]),
+        Some(zone) if zone.fail => (2, vec![]),
+        Some(zone) => match qtype {
+            1 => (0, zone.a.iter().map(|ip| ip.octets().to_vec()).collect()),
+            28 => (0, zone.aaaa.iter().map(|ip| ip.octets().to_vec()).collect()),
+            _ => (0, vec![]),
+        },
+    };
+    let mut reply = Vec::with_capacity(64);
+    reply.extend_from_slice(&query[0..2]);
+    reply.push(0x84 | (query[2] & 0x01));
+    reply.push(0x80 | rcode);
+    reply.extend_from_slice(&1u16.to_be_bytes());
+    reply.extend_from_slice(&(records.len() as u16).to_be_bytes());
+    reply.extend_from_slice(&[0, 0, 0, 0]);
+    reply.extend_from_slice(question);
+    for data in records {
+        reply.extend_from_slice(&[0xc0, 0x0c]);
+        reply.extend_from_slice(&qtype.to_be_bytes());
+        reply.extend_from_slice(&[0, 1]);
+        reply.extend_from_slice(&60u32.to_be_bytes());
+        reply.extend_from_slice(&(data.len() as u16).to_be_bytes());
+        reply.extend_from_slice(&data);
+    }
+    Some(reply)
+}
+
+pub struct ListenerBox {
+    runtime: tokio::runtime::Runtime,
+    listener: Option<SocketListener>,
+    reported: Vec<Multiaddr>,
+    dial: DialAddresses,
+    /// `@k` table.
+    ports: Vec<u16>,
+    server: Option<NameServer>,
+    resolver: Option<Arc<TokioResolver>>,
+    /// Client ends of accepted connections (kept open).
+    clients: Vec<std::net::TcpStream>,
+    /// Held while this box may own `SO_REUSEPORT` listeners: the kernel may hand the same port to
+    /// reuse-port sockets of another harness process (same user) and would then spread incoming
+    /// connections over both processes.
+    reuse_lock: Option<std::fs::File>,
+}
+
+impl ListenerBox {
+    pub fn new() -> Self {
+        Self {
+            runtime: tokio::runtime::Builder::new_current_thread()
+                .enable_all()
+                .build()
+                .expect("runtime"),
+            listener: None,
+            reported: Vec::new(),
+            dial: DialAddresses::NoReuse,
+            ports: Vec::new(),
+            server: None,
+            resolver: None,
+            clients: Vec::new(),
+            reuse_lock: None,
+        }
+    }
+
+    /// Is `op` one of this box's operations?
+    pub fn handles(op: &str) -> bool {
+        matches!(op, "bind" | "localdial" | "accept" | "dns" | "resolve")
+    }
+
+    fn port_name(&mut self, port: u16, learn: bool) -> String {
+        match self.ports.iter().position(|p| *p == port) {
+            Some(k) => format!("@{k}"),
+            None if learn => {
+                self.ports.push(port);
+                format!("@{}", self.ports.len() - 1)
+            }
+            None => port.to_string(),
+        }
+    }
+
+    fn show_socket(&mut self, address: &SocketAddr, learn: bool) -> String {
+        let port = self.port_name(address.port(), learn);
+        match address.ip() {
+            IpAddr::V4(ip) => format!("{ip}:{port}"),
+            IpAddr::V6(ip) => format!("[{ip}]:{port}"),
+        }
+    }
+
+    /// Parse an address token (`/p2p/P<n>`, `/tcp/@k`).
+    fn addr(&self, text: &str) -> Option<Multiaddr> {
+        if !text.starts_with('/') || text.len() < 2 {
+            return None;
+        }
+        let mut out = String::new();
+        let mut prev: &str = "";
+        for seg in text.split('/').skip(1) {
+            out.push('/');
+            if prev == "p2p" {
+                let n: u64 = seg.strip_prefix('P')?.parse().ok()?;
+                out.push_str(&peer(n).to_string());
+                prev = "";
+                continue;
+            }
+            if (prev == "tcp" || prev == "udp") && seg.starts_with('@') {
+                let k: usize = seg[1..].parse().ok()?;
+                out.push_str(&self.ports.get(k)?.to_string());
+                prev = "";
+                continue;
+            }
+            out.push_str(seg);
+            prev = if prev.is_empty() { seg } else { "" };
+        }
+        out.parse().ok()
+    }
+
+    fn show_addr(&mut self, address: &Multiaddr) -> String {
+        let mut out = String::new();
+        for protocol in address.iter() {
+            match protocol {
+                Protocol::Tcp(port) => out.push_str(&format!("/tcp/{}", self.port_name(port, false))),
+                Protocol::P2p(_) => {
+                    let single = Multiaddr::empty().with(protocol);
+                    match crate::PeerId::try_from_multiaddr(&single).and_then(|p| peer_index(&p)) {
+                        Some(i) => out.push_str(&format!("/p2p/P{i}")),
+                        None => out.push_str("/p2p/?"),
+                    }
+                }
+                other => out.push_str(&other.to_string()),
+            }
+        }
+        out
+    }
+
+    /// Addresses of the machine's interfaces, sorted (an input of the model; the enumeration order
+    /// differs from call to call).
+    fn interfaces() -> String {
+        match NetworkInterface::show() {
+            Ok(list) => {
+                let items: Vec<String> = list
+                    .into_iter()
+                    .flat_map(|record| record.addr.into_iter())
+                    .map(|a| match a {
+                        Addr::V4(inner) => inner.ip.to_string(),
+                        Addr::V6(inner) => inner.ip.to_string(),
+                    })
+                    .collect();
+                let mut items: Vec<String> = items;
+                items.sort();
+                items.dedup();
+                format!("[{}]", items.join(","))
+            }
+            Err(_) => "err".into(),
+        }
+    }
+
+    fn resolver(&mut self) -> Option<Arc<TokioResolver>> {
+        if self.server.is_none() {
+            self.server = Some(NameServer::start()?);
+        }
+        if self.resolver.is_none() {
+            let port = self.server.as_ref()?.port;
+            let mut server = NameServerConfig::udp(IpAddr::V4(Ipv4Addr::LOCALHOST));
+            for connection in server.connections.iter_mut() {
+                connection.port = port;
+            }
+            let config = ResolverConfig::from_parts(None, vec![], vec![server]);
+            // as `Litep2p::new`
+            let mut opts = ResolverOpts::default();
+            opts.ip_strategy = LookupIpStrategy::Ipv4AndIpv6;
+            opts.attempts = 1;
+            opts.timeout = Duration::from_millis(1500);
+            let _guard = self.runtime.enter();
+            let resolver = TokioResolver::builder_with_config(config, TokioRuntimeProvider::default())
+                .with_options(opts)
+                .build()
+                .ok()?;
+            self.resolver = Some(Arc::new(resolver));
+        }
+        self.resolver.clone()
+    }
+
+    pub fn step(&mut self, t: &[&str]) -> String {
+        match t {
+            ["bind", rest @ ..] => {
+                let flags: Vec<&str> = rest.iter().copied().take_while(|x| !x.starts_with('/')).collect();
+                let args = kv(&flags);
+                let (Some(reuse), Some(nodelay)) = (args.get("reuse"), args.get("nodelay")) else {
+                    return "bad-op".into();
+                };
+                let mut addresses = Vec::new();
+                for a in &rest[flags.len()..] {
+                    let Some(a) = self.addr(a) else { return "bad-op".into() };
+                    addresses.push(a);
+                }
+                self.listener = None;
+                self.clients.clear();
+                if *reuse == "1" && self.reuse_lock.is_none() {
+                    if let Ok(file) = std::fs::OpenOptions::new()
+                        .create(true)
+                        .write(true)
+                        .truncate(false)
+                        .open(std::env::temp_dir().join("litep2p-verif-reuseport.lock"))
+                    {
+                        if file.lock().is_ok() {
+                            self.reuse_lock = Some(file);
+                        }
+                    }
+                }
+                let (listener, reported, dial) = {
+                    let _guard = self.runtime.enter();
+                    SocketListener::new::<TcpAddress>(addresses, *reuse == "1", *nodelay == "1")
+                };
+                let mut bound = Vec::new();
+                let mut locals = Vec::new();
+                for l in listener.listeners.iter() {
+                    match l.local_addr() {
+                        Ok(a) => {
+                            bound.push(self.show_socket(&a, true));
+                            locals.push(Some(a));
+                        }
+                        Err(_) => {
+                            bound.push("?".into());
+                            locals.push(None);
+                        }
+                    }
+                }
+                // The interfaces are enumerated in a different order on every call: the addresses
+                // reported for one unspecified listener are printed sorted (the group of a listener
+                // ends where its port or family changes, an address repeats or is not an interface address).
+                let sockets: Vec<Option<SocketAddr>> = reported
+                    .iter()
+                    .map(|a| match TcpAddress::multiaddr_to_socket_address(a) {
+                        Ok((AddressType::Socket(s), _)) => Some(s),
+                        _ => None,
+                    })
+                    .collect();
+                let interface_ips: Vec<IpAddr> = NetworkInterface::show()
+                    .map(|list| {
+                        list.into_iter()
+                            .flat_map(|record| record.addr.into_iter())
+                            .map(|a| match a {
+                                Addr::V4(inner) => IpAddr::V4(inner.ip),
+                                Addr::V6(inner) => IpAddr::V6(inner.ip),
+                            })
+                            .collect()
+                    })
+                    .unwrap_or_default();
+                let mut order: Vec<usize> = Vec::new();
+                let mut at = 0;
+                for local in locals.iter().flatten() {
+                    if at >= sockets.len() {
+                        break;
+                    }
+                    if !local.ip().is_unspecified() {
+                        order.push(at);
+                        at += 1;
+                        continue;
+                    }
+                    let start = at;
+                    let mut seen: Vec<IpAddr> = Vec::new();
+                    while at < sockets.len() {
+                        match sockets[at] {
+                            Some(s)
+                                if s.port() == local.port()
+                                    && s.is_ipv4() == local.is_ipv4()
+                                    && interface_ips.contains(&s.ip())
+                                    && !seen.contains(&s.ip()) =>
+                            {
+                                seen.push(s.ip());
+                                at += 1;
+                            }
+                            _ => break,
+                        }
+                    }
+                    let mut group: Vec<usize> = (start..at).collect();
+                    group.sort_by_key(|i| sockets[*i].map(|s| s.ip().to_string()));
+                    order.extend(group);
+                }
+                order.extend(at..sockets.len());
+                let reported: Vec<Multiaddr> = order.iter().map(|i| reported[*i].clone()).collect();
+                let mut listen = Vec::new();
+                let mut back = Vec::new();
+                for a in reported.iter() {
+                    listen.push(self.show_addr(a));
+                    back.push(match TcpAddress::multiaddr_to_socket_address(a) {
+                        Ok((AddressType::Socket(s), None)) => self.show_socket(&s, false),
+                        Ok((AddressType::Socket(_), Some(_))) => "peer".into(),
+                        Ok((AddressType::Dns { .. }, _)) => "dns".into(),
+                        Err(_) => "err".into(),
+                    });
+                }
+                let dial_text = match &dial {
+                    DialAddresses::NoReuse => "noreuse".to_string(),
+                    DialAddresses::Reuse { listen_addresses } => {
+                        let list: Vec<SocketAddr> = if listen_addresses.len() == order.len() {
+                            order.iter().map(|i| listen_addresses[*i]).collect()
+                        } else {
+                            listen_addresses.iter().copied().collect()
+                        };
+                        let items: Vec<String> = list.iter().map(|a| self.show_socket(a, false)).collect();
+                        format!("reuse:[{}]", items.join(","))
+                    }
+                };
+                self.listener = Some(listener);
+                self.reported = reported;
+                self.dial = dial;
+                format!(
+                    "bound=[{}] listen=[{}] back=[{}] dial={} ifaces={}",
+                    bound.join(","),
+                    listen.join(","),
+                    back.join(","),
+                    dial_text,
+                    Self::interfaces()
+                )
+            }
+            ["localdial", ip] => {
+                let Ok(ip) = ip.parse::<IpAddr>() else { return "bad-op".into() };
+                match self.dial.local_dial_address(&ip) {
+                    Ok(None) => "ok none".into(),
+                    Ok(Some(a)) => format!("ok {}", self.show_socket(&a, false)),
+                    Err(()) => "err".into(),
+                }
+            }
+            ["accept", k] => {
+                let Ok(k) = k.parse::<usize>() else { return "bad-op".into() };
+                let Some(address) = self.reported.get(k).cloned() else { return "none".into() };
+                let Ok((AddressType::Socket(target), _)) = TcpAddress::multiaddr_to_socket_address(&address) else {
+                    return "unparsed".into();
+                };
+                let Ok(client) = std::net::TcpStream::connect_timeout(&target, Duration::from_secs(2)) else {
+                    return "connect-failed".into();
+                };
+                let Some(listener) = self.listener.as_mut() else { return "none".into() };
+                let accepted = self
+                    .runtime
+                    .block_on(async { tokio::time::timeout(Duration::from_secs(2), listener.next()).await });
+                let out = match accepted {
+                    Err(_) => "timeout".to_string(),
+                    Ok(None) => "closed".to_string(),
+                    Ok(Some(Err(_))) => "err".to_string(),
+                    Ok(Some(Ok((stream, from)))) => {
+                        let same_peer = client.local_addr().map_or(false, |a| a == from);
+                        match stream.local_addr() {
+                            Ok(a) => format!("ok {} peer={}", self.show_socket(&a, false), same_peer as u8),
+                            Err(_) => "ok ?".to_string(),
+                        }
+                    }
+                };
+                self.clients.push(client);
+                out
+            }
+            ["dns", name, "fail"] => {
+                let Some(_) = self.resolver() else { return "no-resolver".into() };
+                self.resolver = None;
+                let script = self.server.as_ref().expect("server").script.clone();
+                script.lock().expect("lock").insert(
+                    name.to_ascii_lowercase(),
+                    Zone {
+                        fail: true,
+                        ..Default::default()
+                    },
+                );
+                "ok".into()
+            }
+            ["dns", name, a, aaaa] => {
+                let mut zone = Zone::default();
+                if *a != "-" {
+                    for x in a.split(',') {
+                        let Ok(ip) = x.parse() else { return "bad-op".into() };
+                        zone.a.push(ip);
+                    }
+                }
+                if *aaaa != "-" {
+                    for x in aaaa.split(',') {
+                        let Ok(ip) = x.parse() else { return "bad-op".into() };
+                        zone.aaaa.push(ip);
+                    }
+                }
+                let Some(_) = self.resolver() else { return "no-resolver".into() };
+                // a changed script must not be answered from the resolver's cache
+                self.resolver = None;
+                let script = self.server.as_ref().expect("server").script.clone();
+                script.lock().expect("lock").insert(name.to_ascii_lowercase(), zone);
+                "ok".into()
+            }
+            ["resolve", a] => {
+                let Some(a) = self.addr(a) else { return "bad-op".into() };
+                let parsed = match TcpAddress::multiaddr_to_socket_address(&a) {
+                    Ok((address, _)) => address,
+                    Err(AddressError::InvalidProtocol) => return "err parse".into(),
+                    Err(_) => return "err parse-other".into(),
+                };
+                let Some(resolver) = self.resolver() else { return "no-resolver".into() };
+                // what the resolver answers for the name, in its iteration order (an input of the model)
+                let answer = match &parsed {
+                    AddressType::Socket(_) => "-".to_string(),
+                    AddressType::Dns { address, .. } => {
+                        let name = address.clone();
+                        let r = resolver.clone();
+                        match self.runtime.block_on(async move { r.lookup_ip(name).await }) {
+                            Ok(lookup) => {
+                                let items: Vec<String> = lookup.iter().map(|ip| ip.to_string()).collect();
+                                format!("[{}]", items.join(","))
+                            }
+                            Err(_) => "fail".to_string(),
+                        }
+                    }
+                };
+                let kind = match &parsed {
+                    AddressType::Socket(_) => "socket",
+                    AddressType::Dns { dns_type: DnsType::Dns, .. } => "dns",
+                    AddressType::Dns { dns_type: DnsType::Dns4, .. } => "dns4",
+                    AddressType::Dns { dns_type: DnsType::Dns6, .. } => "dns6",
+                };
+                let result = self.runtime.block_on(parsed.lookup_ip(resolver));
+                let result = match result {
+                    Ok(s) => format!("ok {}", self.show_socket(&s, false)),
+                    Err(DnsError::ResolveError(_)) => "err resolve".to_string(),
+                    Err(DnsError::IpVersionMismatch) => "err mismatch".to_string(),
+                };
+                format!("{kind} ans={answer} {result}")
+            }
+            _ => "bad-op".into(),
+        }
+    }
+}
